@@ -2225,6 +2225,7 @@ def _compile_ql_transaction(
         ctx.state.current_tx().release_savepoint(ql.name)
         pgname = pg_common.quote_ident(ql.name)
         sql = f'RELEASE SAVEPOINT {pgname}'.encode()
+        cacheable = False
         action = dbstate.TxAction.RELEASE_SAVEPOINT
 
     elif isinstance(ql, qlast.RollbackToSavepoint):
